@@ -1669,7 +1669,7 @@ fn gen_scenarios(tier: Tier, seed: u64) -> Vec<Value> {
     for victim in ["client", "server"] {
         for source in ["peer", "stranger"] {
             // one scenario per (record) keeps batches small and replays short
-            for (ri, sz) in size_pool.iter().enumerate() {
+            for (_ri, sz) in size_pool.iter().enumerate() {
                 let rec_len = 13 + 8 + sz + 16;
                 let nbits = rec_len * 8;
                 let mut bits: Vec<usize> = (0..13 * 8).collect();
@@ -1736,7 +1736,7 @@ fn gen_scenarios(tier: Tier, seed: u64) -> Vec<Value> {
     // G. send side
     let boundary = [0usize, 1, 15, 16, 17, 1199, 1200, 1201, 2399, 2400, 2401, 3600, 3601, 4999, 5000];
     let rounds = if thorough { 20 } else { 2 };
-    for round in 0..rounds {
+    for _round in 0..rounds {
         for senders in ["client", "server", "both"] {
             for n in [1usize, 2, 4, 8] {
                 for eager in [false, true] {
